@@ -54,6 +54,11 @@ func init() {
 	// a valid document whose path item declares a body parameter with a $ref'd schema (shared by
 	// its operations) and operation-level parameters with $ref'd schemas
 	c10multi = append(c10multi,
+		// an unresolvable reference NEXT TO findings of the later rules (duplicate operation ids, an
+		// undeclared path parameter, an array parameter without items, a rejected default): with
+		// continue-on-errors those rules run on the unexpanded document, and they must do so whatever the
+		// validator object validated before
+		`{"swagger":"2.0","info":{"title":"t","version":"1"},"paths":{"/u/{uid}":{"get":{"operationId":"same","parameters":[{"name":"l","in":"query","type":"array"},{"name":"d","in":"query","type":"integer","default":"x"}],"responses":{"200":{"description":"ok","schema":{"$ref":"#/definitions/Nowhere"}}}},"put":{"operationId":"same","responses":{"200":{"description":"ok","schema":{"$ref":"#/definitions/Here"}}}}}},"definitions":{"Here":{"type":"object","required":["zz"],"properties":{"n":{"type":"integer"}}}}}`,
 		// warning-only rules that no other document reaches: a required read-only property (declared, by
 		// pattern, by additionalProperties), validation keywords that do not fit the parameter type, a
 		// garbled placeholder in a path, a required parameter with a default
@@ -263,6 +268,22 @@ func c10run(docText string, ex c10exec, cycles map[string]string) (o c10out) {
 	}
 	sv := validate.NewSpecValidator(doc.Schema(), strfmt.Default)
 	sv.SetContinueOnErrors(ex.Cont)
+	if ex.History == "reused-validator" {
+		// ONE validator object (it is bound to the Swagger schema, not to a document) validates the
+		// trigger documents first: nothing it learnt about them may show in the document under test
+		for _, o := range c10triggers {
+			if other, err := loads.Analyzed(json.RawMessage(o), ""); err == nil {
+				func() {
+					defer func() {
+						if recover() != nil {
+							resetPools()
+						}
+					}()
+					sv.Validate(other)
+				}()
+			}
+		}
+	}
 	errs, warns := sv.Validate(doc)
 	switch ex.History {
 	case "second-call":
@@ -300,7 +321,7 @@ func c10executions(quick bool, cont bool) []c10exec {
 	}
 	xs = append(xs,
 		c10exec{0, false, "json", "first", cont}, c10exec{0, false, "yaml", "first", cont}, c10exec{2, true, "yaml", "first", cont},
-		c10exec{0, false, "memory", "after-other", cont}, c10exec{0, false, "memory", "second-call", cont}, c10exec{0, false, "memory", "same-validator-twice", cont})
+		c10exec{0, false, "memory", "after-other", cont}, c10exec{0, false, "memory", "second-call", cont}, c10exec{0, false, "memory", "same-validator-twice", cont}, c10exec{0, false, "memory", "reused-validator", cont})
 	if !quick {
 		for p := 0; p < 8; p++ {
 			xs = append(xs, c10exec{p, true, "memory", "first", cont}, c10exec{p, false, "json", "second-call", cont}, c10exec{p, p%2 == 0, "yaml", "after-other", cont})
@@ -379,6 +400,7 @@ func c10worker(c *hx.Ctx) int {
 		cycles := cyclesOf(doc)
 		var byCont [2]c10out
 		bad := false
+		sigSeen := map[string]bool{}
 		for ci, cont := range []bool{false, true} {
 			var first *c10out
 			var firstEx c10exec
@@ -406,9 +428,13 @@ func c10worker(c *hx.Ctx) int {
 				if o.key() != first.key() {
 					bad = true
 					sig, what := c10describe(doc, firstEx, *first, ex, o)
-					rep.AddViolation(hx.Violation{Signature: sig, What: what,
-						Replay: map[string]any{"document": doc, "execution_a": firstEx, "outcome_a": first, "execution_b": ex, "outcome_b": o}})
-					break
+					// every execution is compared (no stop at the first difference: a difference that is
+					// a known finding must not hide another one later in the list); one report per signature
+					if !sigSeen[sig] {
+						sigSeen[sig] = true
+						rep.AddViolation(hx.Violation{Signature: sig, What: what,
+							Replay: map[string]any{"document": doc, "execution_a": firstEx, "outcome_a": first, "execution_b": ex, "outcome_b": o}})
+					}
 				}
 			}
 		}
